@@ -13,11 +13,18 @@
 #include <stdatomic.h>
 #include <unistd.h>
 
-enum { K_SLEEP, K_PROVIDER, K_SOCKRECV, K_CTXRECV, K_DIAL, K_ACCEPT, K_STREAMRECV, K_SOCKSEND, K_NKINDS };
-static const char *kind_names[] = { "sleep", "provider", "sock-recv", "ctx-recv", "dial-aio", "stream-accept", "stream-recv", "sock-send" };
+enum { K_SLEEP, K_PROVIDER, K_SOCKRECV, K_CTXRECV, K_DIAL, K_ACCEPT, K_STREAMRECV, K_SOCKSEND, K_PROTORECV, K_PROTOSEND, K_REQSEND, K_NKINDS };
+static const char *kind_names[] = { "sleep", "provider", "sock-recv", "ctx-recv", "dial-aio", "stream-accept", "stream-recv", "sock-send", "proto-recv", "proto-send", "req-ctx-send" };
 
-enum { A_NONE, A_CANCEL, A_ABORT, A_STOP, A_CLOSE, A_NACTS };
-static const char *act_names[] = { "none", "cancel", "abort", "stop", "close" };
+// K_PROTORECV / K_PROTOSEND: the receive / send path (and cancel function) of
+// further protocols; no conservation is demanded of these (lossy or fan-out)
+enum { PR_PULL, PR_SUB, PR_BUS, PR_PAIR0, PR_XREP, PR_N };
+static const char *pr_names[] = { "pull", "sub", "bus", "pair0", "xrep" };
+enum { PS_PUSH, PS_PAIR0, PS_XREQ, PS_N };
+static const char *ps_names[] = { "push", "pair0", "xreq" };
+
+enum { A_NONE, A_CANCEL, A_ABORT, A_STOP, A_CLOSE, A_FREE, A_NACTS };
+static const char *act_names[] = { "none", "cancel", "abort", "stop", "close", "free" };
 
 #define ABORT_CODE NNG_EPERM
 
@@ -27,7 +34,7 @@ typedef struct arec {
 	int             idx;
 	_Atomic int     n_submit, n_cb, in_cb;
 	_Atomic int     cancel_issued, abort_issued, stop_issued, close_issued;
-	_Atomic int     stop_returned, freed;
+	_Atomic int     stop_returned, freed, free_issued;
 	_Atomic uint64_t t_submit;   // ns
 	_Atomic int     timeout_ms;  // aio timeout of the current submission, -1 none
 	_Atomic int     sleep_ms;    // for K_SLEEP: requested duration of current submission
@@ -39,6 +46,7 @@ typedef struct arec {
 	int             prov_have_final;
 	int             cancel_delay_us;
 	_Atomic uint64_t t_expire_pick; // last time the expire loop picked this aio (hook)
+	int             dwell_us;       // time the callback spends inside (widens "still running" windows)
 	// K_SOCKSEND: result of every submission (index = submission number)
 	int             send_rv[40];
 	_Atomic int     send_seq; // submission number of the message now attached
@@ -49,6 +57,7 @@ typedef struct arec {
 
 typedef struct casectx {
 	int         kind;
+	int         sub; // protocol of K_PROTORECV / K_PROTOSEND
 	nng_socket  s, peer;
 	nng_ctx     ctx[8];
 	nng_dialer  dialer;
@@ -167,6 +176,7 @@ cb(void *arg)
 		vf_violation("C02/callback-after-free", "%s: callback began after nng_aio_free returned", kind_names[r->kind]);
 		return;
 	}
+	if (r->dwell_us) vf_usleep(r->dwell_us);
 	int ncb = atomic_fetch_add(&r->n_cb, 1) + 1;
 	int nsub = atomic_load(&r->n_submit);
 	if (ncb > nsub) {
@@ -197,8 +207,11 @@ cb(void *arg)
 			// which window?  If the expire loop picked this aio before the
 			// current submission began, the timeout belongs to the previous
 			// operation of this aio and its cancel call landed on this one.
-			uint64_t pick = atomic_load(&r->t_expire_pick);
-			bool     stale = pick != 0 && pick <= atomic_load(&r->t_submit);
+			// (the pick must be recent: the expire thread only sits on a
+			// picked aio for as long as it is delayed)
+			uint64_t pick = atomic_load(&r->t_expire_pick), ts = atomic_load(&r->t_submit);
+			bool     stale = pick != 0 && pick <= ts && ts - pick < 250ULL * 1000000ULL;
+			if (stale) vf_stat("stale_expiry_classified", 1);
 			snprintf(key, sizeof(key), "C02/timeout-early/%s%s", stale ? "stale-expiry-cancel/" : "", kind_names[r->kind]);
 			vf_violation(key, "%s: NNG_ETIMEDOUT after %.2f ms, configured %d ms", kind_names[r->kind], el_ms, tmo);
 		}
@@ -271,7 +284,19 @@ cb(void *arg)
 			}
 		}
 	}
-	if (r->kind == K_SOCKRECV || r->kind == K_CTXRECV) {
+	if (r->kind == K_PROTOSEND || r->kind == K_REQSEND) {
+		nng_msg *m = nng_aio_get_msg(r->aio);
+		if (rv != 0) {
+			if (m == NULL) {
+				snprintf(key, sizeof(key), "C02/send-failed-without-msg/%s", kind_names[r->kind]);
+				vf_violation(key, "send completed with %s but the message is no longer attached to the aio", resname(rv));
+			} else {
+				nng_aio_set_msg(r->aio, NULL);
+				nng_msg_free(m);
+			}
+		}
+	}
+	if (r->kind == K_SOCKRECV || r->kind == K_CTXRECV || r->kind == K_PROTORECV) {
 		nng_msg *m = nng_aio_get_msg(r->aio);
 		if (rv == 0) {
 			if (m == NULL) {
@@ -289,11 +314,15 @@ cb(void *arg)
 	}
 	int slot = rv == 0 ? 0 : rv == NNG_ETIMEDOUT ? 1 : rv == NNG_ECANCELED ? 2 : rv == NNG_ESTOPPED ? 3 : rv == NNG_ECLOSED ? 4 : rv == ABORT_CODE ? 5 : 6;
 	atomic_fetch_add(&r->results[slot], 1);
-	vf_class("%s/%s", kind_names[r->kind], resname(rv));
+	if (r->kind == K_PROTORECV || r->kind == K_PROTOSEND) {
+		vf_class("%s:%s/%s", kind_names[r->kind], r->kind == K_PROTORECV ? pr_names[r->cx->sub] : ps_names[r->cx->sub], resname(rv));
+	} else {
+		vf_class("%s/%s", kind_names[r->kind], resname(rv));
+	}
 
 	atomic_store(&r->in_cb, 0);
 	// re-submission from inside the callback
-	if (r->resubmits_left > 0 && rv != NNG_ESTOPPED && rv != NNG_ECLOSED && !atomic_load(&r->stop_issued) && !atomic_load(&r->close_issued) && r->kind != K_DIAL) {
+	if (r->resubmits_left > 0 && rv != NNG_ESTOPPED && rv != NNG_ECLOSED && !atomic_load(&r->stop_issued) && !atomic_load(&r->close_issued) && r->kind != K_DIAL && !atomic_load(&r->free_issued)) {
 		r->resubmits_left--;
 		submit(r, true);
 	}
@@ -346,8 +375,26 @@ submit(arec *r, bool from_cb)
 		nng_ctx_recv(cx->ctx[r->idx], r->aio);
 		break;
 	case K_DIAL:
-		nng_dialer_start_aio(cx->dialer, 0, r->aio);
+		nng_dialer_start_aio(cx->dialer, NNG_FLAG_NONBLOCK, r->aio);
 		break;
+	case K_PROTORECV:
+		nng_socket_recv(cx->s, r->aio);
+		break;
+	case K_PROTOSEND:
+	case K_REQSEND: {
+		nng_msg *m;
+		if (nng_msg_alloc(&m, 0) != 0) vf_harness_fail("msg alloc");
+		nng_msg_append_u32(m, 0x80000000u | (uint32_t) r->idx);
+		nng_msg_append_u32(m, (uint32_t) atomic_load(&r->n_submit));
+		if (r->kind == K_PROTOSEND && cx->sub == PS_XREQ) nng_msg_header_append_u32(m, 0x80000001u);
+		nng_aio_set_msg(r->aio, m);
+		if (r->kind == K_REQSEND) {
+			nng_ctx_send(cx->ctx[r->idx], r->aio);
+		} else {
+			nng_socket_send(cx->s, r->aio);
+		}
+		break;
+	}
 	case K_ACCEPT:
 		nng_stream_listener_accept(cx->sl, r->aio);
 		break;
@@ -368,6 +415,18 @@ typedef struct {
 	int      complete_at_us;
 	int      ncomplete;
 } plan;
+
+// nothing of this aio may be executing once stop / wait / free returned
+static void
+check_not_running(arec *r, const char *what)
+{
+	if (atomic_load(&r->in_cb)) {
+		char key[96];
+		snprintf(key, sizeof(key), "C02/callback-running-after-%s/%s", what, kind_names[r->kind]);
+		vf_violation(key, "%s: nng_aio_%s returned while the callback of this aio was still executing", kind_names[r->kind], what);
+	}
+	vf_stat("not_running_checks", 1);
+}
 
 static void *
 actor_thread(void *arg)
@@ -399,12 +458,26 @@ actor_thread(void *arg)
 			atomic_store(&r->stop_issued, 1);
 			nng_aio_stop(r->aio);
 			atomic_store(&r->stop_returned, 1);
+			check_not_running(r, "stop");
+			break;
+		case A_FREE:
+			// nng_aio_free of an operation in flight: it is aborted and
+			// its callback has finished when free returns
+			atomic_store(&r->stop_issued, 1);
+			atomic_store(&r->free_issued, 1);
+			nng_aio_free(r->aio);
+			atomic_store(&r->freed, 1);
+			check_not_running(r, "free");
+			vf_stat("free_in_flight", 1);
 			break;
 		case A_CLOSE:
 			for (int i = 0; i < cx->nrec; i++) atomic_store(&cx->rec[i].close_issued, 1);
 			switch (cx->kind) {
 			case K_SOCKRECV: nng_socket_close(cx->s); break;
 			case K_SOCKSEND: nng_socket_close(cx->s); break;
+			case K_PROTORECV: nng_socket_close(cx->s); break;
+			case K_PROTOSEND: nng_socket_close(cx->s); break;
+			case K_REQSEND: nng_ctx_close(cx->ctx[best]); break;
 			case K_CTXRECV: nng_ctx_close(cx->ctx[best]); break;
 			case K_DIAL: nng_dialer_close(cx->dialer); break;
 			case K_ACCEPT: nng_stream_listener_close(cx->sl); break;
@@ -457,6 +530,29 @@ completer_thread(void *arg)
 				sendlog_add(cx, m);
 			}
 			vf_usleep((int) vf_below(&p->rng, 800));
+		}
+		break;
+	case K_PROTORECV:
+		for (int i = 0; i < p->ncomplete; i++) {
+			nng_msg *m;
+			if (nng_msg_alloc(&m, 0) != 0) break;
+			if (cx->sub == PR_XREP) nng_msg_header_append_u32(m, 0x80000000u | (uint32_t) (i + 1));
+			nng_msg_append_u32(m, (uint32_t) i);
+			if (nng_sendmsg(cx->peer, m, NNG_FLAG_NONBLOCK) != 0) nng_msg_free(m);
+			vf_usleep((int) vf_below(&p->rng, 800));
+		}
+		break;
+	case K_PROTOSEND:
+		for (int i = 0; i < p->ncomplete; i++) {
+			nng_msg *m = NULL;
+			if (nng_recvmsg(cx->peer, &m, 0) == 0) nng_msg_free(m);
+			vf_usleep((int) vf_below(&p->rng, 800));
+		}
+		break;
+	case K_REQSEND:
+		// the requests wait for a connection: make one (or not)
+		if (p->ncomplete > 0) {
+			(void) vf_connect(cx->s, cx->peer, VF_T_INPROC);
 		}
 		break;
 	case K_ACCEPT: {
@@ -515,7 +611,7 @@ run_case(long idx, vf_rng *r)
 	int      tran = vf_chance(r, 1, 3) ? VF_T_TCP : VF_T_INPROC;
 	int      pert = (int) vf_below(r, 4);
 	int      target = -1;
-	static const int targets[] = { NNI_VP_AIO_ABORT_UNLOCKED, NNI_VP_AIO_FINISH_UNLOCKED, NNI_VP_AIO_EXPIRE_BEFORE_CANCEL, NNI_VP_AIO_EXPIRE_BETWEEN, NNI_VP_AIO_STOP_BEFORE_WAIT, NNI_VP_TASK_BEFORE_CB, NNI_VP_TASK_BEFORE_ENQUEUE, NNI_VP_AIO_START, NNI_VP_TASK_AFTER_CB };
+	static const int targets[] = { NNI_VP_AIO_ABORT_UNLOCKED, NNI_VP_AIO_FINISH_UNLOCKED, NNI_VP_AIO_EXPIRE_BEFORE_CANCEL, NNI_VP_AIO_EXPIRE_BETWEEN, NNI_VP_AIO_STOP_BEFORE_WAIT, NNI_VP_TASK_BEFORE_CB, NNI_VP_TASK_BEFORE_ENQUEUE, NNI_VP_AIO_START, NNI_VP_TASK_AFTER_CB, NNI_VP_AIO_EXPIRE_BEFORE_CANCEL, NNI_VP_AIO_EXPIRE_BETWEEN, NNI_VP_AIO_EXPIRE_BEFORE_CANCEL, NNI_VP_AIO_EXPIRE_BETWEEN };
 
 	memset(&p, 0, sizeof(p));
 	p.cx = cx;
@@ -526,6 +622,8 @@ run_case(long idx, vf_rng *r)
 	if (cx->kind == K_SOCKRECV || cx->kind == K_DIAL || cx->kind == K_ACCEPT) cx->nrec = (int) vf_range(r, 1, 2);
 	if (cx->kind == K_SOCKSEND) cx->nrec = (int) vf_range(r, 1, 4);
 	if (cx->kind == K_DIAL || cx->kind == K_STREAMRECV) cx->nrec = 1;
+	if (cx->kind == K_PROTORECV || cx->kind == K_PROTOSEND) cx->nrec = (int) vf_range(r, 1, 3);
+	if (cx->kind == K_REQSEND) cx->nrec = (int) vf_range(r, 1, 4);
 
 	vf_pt_off();
 	if (pert == 1) vf_pt_jitter(vf_rand(r), (int) vf_range(r, 5, 60), (int) vf_range(r, 20, 300));
@@ -536,6 +634,8 @@ run_case(long idx, vf_rng *r)
 	}
 	int base_ms = (int) vf_range(r, 2, 25); // nominal instant around which things race
 	vf_case_begin(idx, "kind=%s n=%d tran=%s pert=%s base=%dms", kind_names[cx->kind], cx->nrec, vf_tran_names[tran], pert == 0 ? "none" : pert == 1 ? "jitter" : vf_pt_name(target), base_ms);
+	(void) pr_names;
+	(void) ps_names;
 
 	// set-up
 	switch (cx->kind) {
@@ -561,6 +661,41 @@ run_case(long idx, vf_rng *r)
 		if ((rv = vf_connect(cx->s, cx->peer, tran)) != 0) vf_harness_fail("connect: %s", nng_strerror(rv));
 		for (int i = 0; i < cx->nrec; i++) nng_ctx_open(&cx->ctx[i], cx->s);
 		break;
+	case K_PROTORECV: {
+		int orv = 0;
+		cx->sub = (int) vf_below(r, PR_N);
+		switch (cx->sub) {
+		case PR_PULL: orv = nng_pull0_open(&cx->s) || nng_push0_open(&cx->peer); break;
+		case PR_SUB: orv = nng_sub0_open(&cx->s) || nng_pub0_open(&cx->peer); break;
+		case PR_BUS: orv = nng_bus0_open(&cx->s) || nng_bus0_open(&cx->peer); break;
+		case PR_PAIR0: orv = nng_pair0_open(&cx->s) || nng_pair0_open(&cx->peer); break;
+		case PR_XREP: orv = nng_rep0_open_raw(&cx->s) || nng_req0_open_raw(&cx->peer); break;
+		}
+		if (orv) vf_harness_fail("open");
+		if (cx->sub == PR_SUB) nng_sub0_socket_subscribe(cx->s, "", 0);
+		if ((rv = vf_connect(cx->s, cx->peer, tran)) != 0) vf_harness_fail("connect: %s", nng_strerror(rv));
+		break;
+	}
+	case K_PROTOSEND: {
+		int orv = 0;
+		cx->sub = (int) vf_below(r, PS_N);
+		switch (cx->sub) {
+		case PS_PUSH: orv = nng_push0_open(&cx->s) || nng_pull0_open(&cx->peer); break;
+		case PS_PAIR0: orv = nng_pair0_open(&cx->s) || nng_pair0_open(&cx->peer); break;
+		case PS_XREQ: orv = nng_req0_open_raw(&cx->s) || nng_rep0_open_raw(&cx->peer); break;
+		}
+		if (orv) vf_harness_fail("open");
+		nng_socket_set_int(cx->s, NNG_OPT_SENDBUF, (int) vf_below(r, 2));
+		nng_socket_set_int(cx->peer, NNG_OPT_RECVBUF, (int) vf_below(r, 2));
+		nng_socket_set_ms(cx->peer, NNG_OPT_RECVTIMEO, 30);
+		// sometimes there is no connection at all: every send waits
+		if (vf_chance(r, 3, 4) && (rv = vf_connect(cx->s, cx->peer, tran)) != 0) vf_harness_fail("connect: %s", nng_strerror(rv));
+		break;
+	}
+	case K_REQSEND:
+		if (nng_req0_open(&cx->s) || nng_rep0_open(&cx->peer)) vf_harness_fail("open");
+		for (int i = 0; i < cx->nrec; i++) nng_ctx_open(&cx->ctx[i], cx->s);
+		break;
 	case K_DIAL: {
 		if (nng_pair1_open(&cx->s)) vf_harness_fail("open");
 		bool reachable = vf_chance(r, 1, 2);
@@ -569,8 +704,18 @@ run_case(long idx, vf_rng *r)
 			vf_url(tran, url, sizeof(url));
 			if ((rv = nng_listen(cx->peer, url, &l, 0)) != 0) vf_harness_fail("listen %s", nng_strerror(rv));
 			vf_dial_url(l, tran, url, durl, sizeof(durl));
-		} else {
+		} else if (vf_chance(r, 1, 2)) {
 			vf_url(VF_T_INPROC, durl, sizeof(durl)); // nobody listens
+		} else {
+			// a tcp port that refuses: bind, read the port, close
+			nng_socket   tmp;
+			nng_listener tl;
+			int          port = 1;
+			if (nng_pair1_open(&tmp) == 0) {
+				if (nng_listen(tmp, "tcp://127.0.0.1:0", &tl, 0) == 0) nng_listener_get_int(tl, NNG_OPT_BOUND_PORT, &port);
+				nng_socket_close(tmp);
+			}
+			snprintf(durl, sizeof(durl), "tcp://127.0.0.1:%d", port);
 		}
 		if ((rv = nng_dialer_create(&cx->dialer, cx->s, durl)) != 0) vf_harness_fail("dialer_create %s", nng_strerror(rv));
 		break;
@@ -628,12 +773,14 @@ run_case(long idx, vf_rng *r)
 		a->cx   = cx;
 		if (nng_aio_alloc(&a->aio, cb, a) != 0) vf_harness_fail("aio alloc");
 		int tsel = (int) vf_below(r, 6);
+		if ((target == NNI_VP_AIO_EXPIRE_BEFORE_CANCEL || target == NNI_VP_AIO_EXPIRE_BETWEEN) && tsel < 2) tsel = 2; // make the expiry happen
 		int tmo  = tsel == 0 ? -1 : tsel == 1 ? 0 : tsel <= 3 ? batch_timeout : (int) vf_range(r, 1, 40);
 		atomic_store(&a->timeout_ms, tmo);
 		atomic_store(&a->sleep_ms, vf_chance(r, 1, 2) ? base_ms : (int) vf_range(r, 0, 40));
 		a->resubmits_left   = vf_chance(r, 1, 2) ? (int) vf_below(r, 4) : 0;
 		a->resubmit_timeout = vf_chance(r, 1, 2) ? 10000 : (int) vf_range(r, 1, 30);
 		a->cancel_delay_us  = vf_chance(r, 1, 3) ? (int) vf_range(r, 100, 3000) : 0;
+		a->dwell_us         = vf_chance(r, 1, 2) ? (int) vf_range(r, 50, 500) : 0;
 		if (mixed_batch) {
 			// same deadline for everybody; providers cancel slowly; the sleeps
 			// are cancelled / stopped right around the deadline
@@ -643,6 +790,8 @@ run_case(long idx, vf_rng *r)
 		}
 		p.act[i]            = (int) vf_below(r, A_NACTS);
 		if (p.act[i] == A_CLOSE && (cx->kind == K_SLEEP || cx->kind == K_PROVIDER)) p.act[i] = A_CANCEL;
+		if (p.act[i] == A_FREE && cx->kind == K_SOCKSEND) p.act[i] = A_STOP; // (its conservation table reads the record later)
+		if (p.act[i] == A_FREE) a->resubmits_left = 0; // an application does not re-arm an aio it is freeing
 		// around the nominal instant (or at once / pre-start)
 		int asel = (int) vf_below(r, 5);
 		p.act_at_us[i] = asel == 0 ? 0 : asel == 1 ? (int) vf_below(r, 300) : (int) (base_ms * 1000 + (int) vf_below(r, 3000) - 1500);
@@ -651,7 +800,7 @@ run_case(long idx, vf_rng *r)
 			p.act[i]       = vf_chance(r, 2, 3) ? A_CANCEL : A_STOP;
 			p.act_at_us[i] = base_ms * 1000 + (int) vf_below(r, 2500);
 		}
-		if (tmo < 0 && p.act[i] == A_NONE && cx->kind != K_SLEEP && cx->kind != K_DIAL) {
+		if (tmo < 0 && (p.act[i] == A_NONE) && cx->kind != K_SLEEP && cx->kind != K_DIAL) {
 			// nothing would end it: give it a timeout (the harness cancels at the end anyway)
 			atomic_store(&a->timeout_ms, (int) vf_range(r, 5, 60));
 		}
@@ -681,6 +830,7 @@ run_case(long idx, vf_rng *r)
 	for (int i = 0; i < cx->nrec; i++) {
 		arec *a = &cx->rec[i];
 		a->resubmits_left = 0;
+		if (atomic_load(&a->freed)) continue;
 		atomic_store(&a->cancel_issued, 1);
 		nng_aio_cancel(a->aio);
 	}
@@ -689,7 +839,9 @@ run_case(long idx, vf_rng *r)
 	}
 	for (int i = 0; i < cx->nrec; i++) {
 		arec *a = &cx->rec[i];
+		if (atomic_load(&a->freed)) continue;
 		nng_aio_wait(a->aio);
+		check_not_running(a, "wait");
 		// a callback may have resubmitted between cancel and wait
 		for (int k = 0; k < 50 && nng_aio_busy(a->aio); k++) {
 			nng_aio_cancel(a->aio);
@@ -698,6 +850,7 @@ run_case(long idx, vf_rng *r)
 		atomic_store(&a->stop_issued, 1);
 		nng_aio_stop(a->aio);
 		atomic_store(&a->stop_returned, 1);
+		check_not_running(a, "stop");
 	}
 	// exactly once: every submission had its callback
 	for (int i = 0; i < cx->nrec; i++) {
@@ -750,8 +903,10 @@ run_case(long idx, vf_rng *r)
 	}
 	for (int i = 0; i < cx->nrec; i++) {
 		arec *a = &cx->rec[i];
-		nng_aio_free(a->aio);
-		atomic_store(&a->freed, 1);
+		if (!atomic_load(&a->freed)) {
+			nng_aio_free(a->aio);
+			atomic_store(&a->freed, 1);
+		}
 		for (int k = 0; k < 7; k++) {
 			if (atomic_load(&a->results[k])) vf_class("%s/act=%s/outcome-slot%d/pert=%s", kind_names[a->kind], act_names[p.act[i]], k, pert == 0 ? "none" : pert == 1 ? "jitter" : vf_pt_name(target));
 		}
@@ -760,9 +915,12 @@ run_case(long idx, vf_rng *r)
 	switch (cx->kind) {
 	case K_SOCKRECV:
 	case K_SOCKSEND:
+	case K_PROTORECV:
+	case K_PROTOSEND:
 		nng_socket_close(cx->s);
 		nng_socket_close(cx->peer);
 		break;
+	case K_REQSEND:
 	case K_CTXRECV:
 		for (int i = 0; i < cx->nrec; i++) nng_ctx_close(cx->ctx[i]);
 		nng_socket_close(cx->s);
